@@ -291,7 +291,13 @@ func Parties(r *rand.Rand, n int) []Party {
 	ps := make([]Party, n)
 	for i := range ps {
 		a := Account(r)
-		ps[i] = Party{Acc: a, Addr: AddrMap(a.Address())}
+		// a copy: the sim account's Address() points into its private key
+		b, _ := a.Address().MarshalBinary()
+		addr := new(simwallet.Address)
+		if err := addr.UnmarshalBinary(b); err != nil {
+			panic(err)
+		}
+		ps[i] = Party{Acc: a, Addr: AddrMap(addr)}
 	}
 	return ps
 }
@@ -384,3 +390,59 @@ func EncodeState(s *channel.State) []byte {
 	}
 	return b.Bytes()
 }
+
+// ---------------------------------------------------------------------------------------------
+// An action app for ActionMachine checks
+
+// BytesAction is an action with a byte payload.
+type BytesAction struct{ B []byte }
+
+// MarshalBinary implements channel.Action.
+func (a *BytesAction) MarshalBinary() ([]byte, error) { return append([]byte{}, a.B...), nil }
+
+// UnmarshalBinary implements channel.Action.
+func (a *BytesAction) UnmarshalBinary(b []byte) error { a.B = append([]byte(nil), b...); return nil }
+
+// ActApp is an ActionApp whose initial allocation is fixed at construction.
+type ActApp struct {
+	id   channel.AppID
+	Init channel.Allocation
+}
+
+// NewActApp returns an action app (not registered: it is never decoded).
+func NewActApp(r *rand.Rand, init channel.Allocation) *ActApp {
+	return &ActApp{id: simchannel.AppID{Address: Account(r).Address().(*simwallet.Address)}, Init: init}
+}
+
+// Def implements channel.App.
+func (a *ActApp) Def() channel.AppID { return a.id }
+
+// NewData implements channel.App.
+func (a *ActApp) NewData() channel.Data { return &BytesData{} }
+
+// ValidAction implements channel.ActionApp.
+func (a *ActApp) ValidAction(*channel.Params, *channel.State, channel.Index, channel.Action) error {
+	return nil
+}
+
+// ApplyActions implements channel.ActionApp.
+func (a *ActApp) ApplyActions(_ *channel.Params, s *channel.State, acts []channel.Action) (*channel.State, error) {
+	ns := s.Clone()
+	ns.Version++
+	d := &BytesData{}
+	for _, x := range acts {
+		if b, ok := x.(*BytesAction); ok && b != nil {
+			d.B = append(d.B, b.B...)
+		}
+	}
+	ns.Data = d
+	return ns, nil
+}
+
+// InitState implements channel.ActionApp.
+func (a *ActApp) InitState(*channel.Params, []channel.Action) (channel.Allocation, channel.Data, error) {
+	return a.Init.Clone(), &BytesData{B: []byte{1}}, nil
+}
+
+// NewAction implements channel.ActionApp.
+func (a *ActApp) NewAction() channel.Action { return &BytesAction{} }
